@@ -324,7 +324,13 @@ end
 -- std-sylt
 
 function atan2(x, y) return math.atan2(y, x) end
-function list_random_choice(l) return list_get(l, math.random(0, #l - 1)) end
+function list_random_choice(l)
+    -- There is nothing to choose from in an empty list - and no number between 0 and -1.
+    if #l == 0 then
+        return __VARIANT({"None", __NIL})
+    end
+    return list_get(l, math.random(0, #l - 1))
+end
 
 function varargs(f)
     return function(xs)
